@@ -27,11 +27,15 @@ with open(os.path.join(HERE, 'seeded', 'MATRIX.md'), 'w') as f:
     f.write('# Seeded changes and the checks that catch them\n\n'
             'Each change was written by an independent sub-agent that saw only the property text and a scratch worktree; it was kept after the '
             'main session confirmed (tools/verify_seeded.sh): patch applies, repository suite still 340/340, demonstration fails with the '
-            'patch and passes without. Detection = quick tier of the check of the property it breaks, run against a scratch worktree '
-            '(tools/seeded_matrix.py).  Round 1: -A/-B, round 2 (asked to avoid round-1 mechanisms and to be harder): -C/-D.\n\n'
+            'patch and passes without. Detection = quick tier of the check of the property it breaks, run against a scratch worktree; when that '
+            'check is silent the other 19 are tried and the first one that fires is recorded (tools/seeded_matrix.py).  Seven rounds of 40: '
+            '-A/-B, -C/-D, ... -M/-N; each round was told the titles of all earlier ones and asked for different, harder mechanisms.  '
+            'Misses are discussed in DESIGN.md section 10.\n\n'
             '| id | breaks | change | needs | result |\n|---|---|---|---|---|\n')
     for r in rows:
         f.write('| %s | %s | %s | %s | %s |\n' % r)
     caught = sum(1 for r in rows if r[4].startswith('CAUGHT'))
-    f.write('\n%d changes, %d caught by the quick tier of their own property\'s check.\n' % (len(rows), caught))
+    own = sum(1 for r, sid in zip(rows, [r[0] for r in rows]) if r[4].startswith('CAUGHT by `./check %s ' % sid.split('-')[0]))
+    f.write('\n%d changes: %d caught by the quick tier of their own property\'s check, %d more by another property\'s check, %d missed.\n'
+            % (len(rows), own, caught - own, len(rows) - caught - sum(1 for r in rows if r[4].startswith('superseded'))))
 print(len(rows), 'rows')
